@@ -94,7 +94,7 @@ def operand_type_ok(env, o, t):
         return lit_fits(o[1], t)
     if o[0] == "V":
         return env.get(o[1]) == t
-    if o[0] == "E":
+    if o[0] in ("E", "C"):
         vt = env.get(o[1])
         return vt is not None and vt[0] == "list" and vt[1] == t
     return False
@@ -182,6 +182,15 @@ def typecheck(hist):
             rt = fn_type(op[3], vec(op[2]))
             need(rt is not None and op[1] != op[2])
             bind(op[1], lst(rt))
+        elif k == "mapelem":
+            vec(op[2])
+            need(op[1] != op[2] and op[1] != op[3])
+            bind(op[1], lst(vec(op[3])))
+        elif k == "mapkey":
+            vec(op[2])
+            t = mapt(op[3])
+            need(op[1] != op[2] and lit_fits(op[4], t[1]))
+            bind(op[1], lst(t[2]))
         elif k == "filterf":
             need(pred_ok(op[3], vec(op[2])) and op[1] != op[2])
             bind(op[1], env[op[2]])
@@ -355,6 +364,11 @@ def oracle_full(hist):
                 env[op[1]] = Vec(env[op[2]])
             elif k == "mapf":
                 env[op[1]] = Vec(o_fn(op[3], x) for x in env[op[2]])
+            elif k == "mapelem":
+                # every element replaced by the value w[i] has now (the callback is not entered for an empty list)
+                env[op[1]] = Vec(at(env[op[3]], op[4]) for _ in env[op[2]])
+            elif k == "mapkey":
+                env[op[1]] = Vec(env[op[3]].get(op[4]) for _ in env[op[2]])
             elif k == "filterf":
                 env[op[1]] = Vec(x for x in env[op[2]] if o_pred(op[3], x))
             elif k == "indexof":
@@ -421,12 +435,21 @@ def oracle_full(hist):
 
 # --------------------------------------------------------------------------- rendering: program text
 
-def operand_src(o, neg):
+def operand_src(o, neg, call=None):
     if o[0] == "L":
         return lit(o[1])
     if o[0] == "V":
         return "v%d" % o[1]
+    if o[0] == "C":
+        return call(o)
     return "v%d[%s]" % (o[1], neg(o[2]))
+
+
+def elem_body(w, i, tmpname):
+    """body of a function returning v<w>[i] (a negative index has to go through a variable)"""
+    if i < 0:
+        return "\t%s = %d\n\treturn v%d[%s]" % (tmpname, i, w, tmpname)
+    return "\treturn v%d[%d]" % (w, i)
 
 
 def canon_key(o):
@@ -511,6 +534,12 @@ def render_program(hist, oracle_obs, flavour=0):
             return n
         return str(i)
 
+    def call(o):
+        # f = fn() -> T { return w[i] } ; the operand is f()
+        n = fresh().replace("t", "f")
+        lines.append("%s = fn() -> %s {\n%s\n}" % (n, tstr(env[o[1]][1]), elem_body(o[1], o[2], "u" + n)))
+        return n + "()"
+
     def assign(dst, t, rhs):
         # typed declaration the first time (an untyped list literal would be a fixed-size tuple)
         if dst in env:
@@ -522,18 +551,18 @@ def render_program(hist, oracle_obs, flavour=0):
     for pos, op in enumerate(hist):
         k = op[0]
         if k == "newvec":
-            es = [operand_src(e, idx) for e in op[3]]
+            es = [operand_src(e, idx, call) for e in op[3]]
             assign(op[1], op[2], "[" + ", ".join(es) + "]")
         elif k == "alias":
             assign(op[1], env[op[2]], "v%d" % op[2])
         elif k == "push":
-            lines.append("v%d.push(%s)" % (op[1], operand_src(op[2], idx)))
+            lines.append("v%d.push(%s)" % (op[1], operand_src(op[2], idx, call)))
         elif k == "remove":
             lines.append("print v%d.remove(%d)" % (op[1], op[2]))
         elif k == "iread":
             lines.append("print v%d[%s]" % (op[1], idx(op[2])))
         elif k == "iwrite":
-            rhs = operand_src(op[3], idx)
+            rhs = operand_src(op[3], idx, call)
             lines.append("v%d[%s] = %s" % (op[1], idx(op[2]), rhs))
         elif k == "opassign":
             sym = {"add": "+=", "sub": "-=", "mul": "*="}[op[3]]
@@ -549,10 +578,17 @@ def render_program(hist, oracle_obs, flavour=0):
         elif k == "mapf":
             et = env[op[2]][1]
             assign(op[1], lst(fn_type(op[3], et)), "v%d.map(%s)" % (op[2], fn_src(op[3], et)))
+        elif k == "mapelem":
+            ut = env[op[3]][1]
+            n = fresh()
+            assign(op[1], lst(ut), "v%d.map(fn(x: %s) -> %s {\n%s\n})" % (op[2], tstr(env[op[2]][1]), tstr(ut), elem_body(op[3], op[4], "u" + n)))
+        elif k == "mapkey":
+            mt = env[op[3]]
+            assign(op[1], lst(mt[2]), "v%d.map(fn(x: %s) -> %s { return v%d[%s] })" % (op[2], tstr(env[op[2]][1]), tstr(mt[2]), op[3], lit(op[4])))
         elif k == "filterf":
             assign(op[1], env[op[2]], "v%d.filter(%s)" % (op[2], pred_src(op[3], env[op[2]][1])))
         elif k == "indexof":
-            lines.append("print v%d.index_of(%s)" % (op[1], operand_src(op[2], idx)))
+            lines.append("print v%d.index_of(%s)" % (op[1], operand_src(op[2], idx, call)))
         elif k == "len":
             lines.append("print v%d.len()" % op[1])
         elif k == "eq":
@@ -564,19 +600,19 @@ def render_program(hist, oracle_obs, flavour=0):
             lines.append('print "" + v%d[%s] + v%d[%s]' % (op[1], a, op[1], b))
         elif k == "maplit":
             t = op[2]
-            body = ", ".join("%s: %s" % (lit(kk), operand_src(e, idx)) for kk, e in op[3])
+            body = ", ".join("%s: %s" % (lit(kk), operand_src(e, idx, call)) for kk, e in op[3])
             rhs = "map[%s, %s]" % (tstr(t[1]), tstr(t[2])) + (" { %s }" % body if op[3] else "")
             lines.append("v%d = %s" % (op[1], rhs))
             env[op[1]] = t
         elif k == "mget":
             lines.append("print v%d[%s]" % (op[1], lit(op[2])))
         elif k == "mset":
-            lines.append("v%d[%s] = %s" % (op[1], lit(op[2]), operand_src(op[3], idx)))
+            lines.append("v%d[%s] = %s" % (op[1], lit(op[2]), operand_src(op[3], idx, call)))
         elif k == "mopassign":
             sym = {"add": "+=", "sub": "-=", "mul": "*="}[op[3]]
             lines.append("v%d[%s] %s %s" % (op[1], lit(op[2]), sym, lit(op[4])))
         elif k == "replace":
-            lines.append("print v%d.replace(%s, %s)" % (op[1], lit(op[2]), operand_src(op[3], idx)))
+            lines.append("print v%d.replace(%s, %s)" % (op[1], lit(op[2]), operand_src(op[3], idx, call)))
         elif k == "mremove":
             lines.append("print v%d.remove(%s)" % (op[1], lit(op[2])))
         elif k == "haskey":
@@ -658,7 +694,7 @@ def m_operand(o):
         return "L" + m_val(o[1])
     if o[0] == "V":
         return "V%d" % o[1]
-    return "E%d,%d" % (o[1], o[2])
+    return "%s%d,%d" % (o[0], o[1], o[2])
 
 
 def m_fn(f):
@@ -699,6 +735,10 @@ def model_line(hist):
             out.append("join %d %d %d" % (op[1], op[2], op[3]))
         elif k == "mapf":
             out.append("mapf %d %d %s" % (op[1], op[2], m_fn(op[3])))
+        elif k == "mapelem":
+            out.append("mapelem %d %d %d %d" % (op[1], op[2], op[3], op[4]))
+        elif k == "mapkey":
+            out.append("mapkey %d %d %d %s" % (op[1], op[2], op[3], m_val(op[4])))
         elif k == "filterf":
             out.append("filterf %d %d %s" % (op[1], op[2], m_pred(op[3])))
         elif k == "concat":
@@ -772,6 +812,7 @@ class Gen:
         self.env = {}
         self.nvar = 0
         self.allow_elem_in_literal = allow_elem_in_literal
+        self.no_views = not allow_elem_in_literal      # pre-fix model: no stored element views
 
     def state(self):
         """contents per variable according to the oracle (None once the history has failed)"""
@@ -793,7 +834,7 @@ class Gen:
         n = len(st[v]) if st and v in st else 0
         if n == 0 and self.rng.random() < 0.85:
             return None
-        return ("E", v, self.index(n, bias_ok=0.9))
+        return ("C" if self.rng.random() < 0.35 else "E", v, self.index(n, bias_ok=0.9))
 
     def operand(self, t, st, in_literal=False):
         """a random operand of static type t"""
@@ -909,7 +950,31 @@ class Gen:
         et = t[1]
         n = len(st[v]) if st and v in st else 1
         k = rng.choice(["push", "push", "remove", "iread", "iread", "iwrite", "opassign", "reverse", "join", "clear",
-                        "clone", "mapf", "filterf", "indexof", "len", "eq", "print", "print", "concat", "alias"])
+                        "clone", "mapf", "filterf", "indexof", "len", "eq", "print", "print", "concat", "alias",
+                        "mapelem", "mapkey"])
+        if k in ("mapelem", "mapkey") and self.no_views:
+            return None
+        if k == "mapelem":
+            # v.map(callback returning an element of list w)
+            w = rng.choice(lists)
+            wn = len(st[w]) if st and w in st else 0
+            if wn == 0 and rng.random() < 0.8:
+                return None
+            return (k, self.dst(lst(self.env[w][1]), (v, w)), v, w, self.index(wn, bias_ok=0.85))
+        if k == "mapkey":
+            if not maps_:
+                return None
+            m = rng.choice(maps_)
+            mt = self.env[m]
+            # m[k] of a missing key is nil whatever V is (a typing hole, property C02): only an optional-valued map
+            # is asked for a key it may not have
+            if st and st.get(m) and (mt[2][0] != "opt" or rng.random() < 0.8):
+                kk = rng.choice(list(st[m].keys()))
+            elif mt[2][0] == "opt":
+                kk = rand_scalar(rng, mt[1], small=True)
+            else:
+                return None
+            return (k, self.dst(lst(mt[2]), (v,)), v, m, kk)
         if n == 0 and k in ("remove", "iread", "iwrite", "opassign", "concat") and rng.random() < 0.7:
             return None
         if k == "push":
@@ -982,7 +1047,7 @@ def boundary_histories():
         for n in (0, 1, 3):
             for iname in ("-1", "0", "len-1", "len"):
                 i = {"-1": -1, "0": 0, "len-1": n - 1, "len": n}[iname]
-                for opk in ("iread", "iwrite", "opassign", "remove", "concat", "elem"):
+                for opk in ("iread", "iwrite", "opassign", "remove", "concat", "elem", "mapelem", "call"):
                     h = []
                     if et[0] == "list":
                         h.append(("newvec", 5, et, [("L", 7)]))
@@ -1008,6 +1073,16 @@ def boundary_histories():
                         if et not in (INT, STR):
                             continue
                         h.append(("concat", 1, i, 0))
+                    elif opk == "mapelem":
+                        h.append(("newvec", 4, lst(INT), [("L", 0), ("L", 0)]))
+                        h.append(("mapelem", 3, 4, 1, i))
+                        h.append(("clear", 0))
+                        h.append(("print", 3))
+                    elif opk == "call":
+                        h.append(("newvec", 3, lst(et), []))
+                        h.append(("push", 3, ("C", 1, i)))
+                        h.append(("reverse", 0))
+                        h.append(("print", 3))
                     else:
                         h.append(("newvec", 3, lst(et), [("E", 1, i)]))
                         h.append(("print", 3))
@@ -1037,6 +1112,15 @@ def fixed_histories():
          ("mlen", 0), ("mlen", 2), ("mget", 0, s("a")), ("mget", 0, s("zz")), ("keys", 0), ("values", 0), ("pairs", 0), ("mopassign", 0, s("zz"), "add", 1)],
         [("maplit", 0, mp(INT, L), []), ("newvec", 1, L, [("L", 5)]), ("mset", 0, 3, ("V", 1)), ("push", 1, ("L", 6)), ("mget", 0, 3), ("values", 0), ("pairs", 0),
          ("replace", 0, 3, ("V", 1)), ("mremove", 0, 3), ("mremove", 0, 3), ("mlen", 0)],
+        # a callback / function returning an element hands on its value, not a view
+        [("newvec", 0, L, [("L", 1), ("L", 2)]), ("newvec", 1, L, [("L", 7), ("L", 8)]), ("mapelem", 2, 1, 0, 0), ("iwrite", 0, 0, ("L", 99)), ("print", 2),
+         ("clear", 0), ("print", 2), ("newvec", 3, L, []), ("mapelem", 4, 3, 0, 5), ("print", 4), ("mapelem", 5, 1, 0, 5), ("print", 5)],
+        [("maplit", 0, mp(STR, INT), [(s("a"), ("L", 5))]), ("newvec", 1, L, [("L", 7), ("L", 8)]), ("mapkey", 2, 1, 0, s("a")), ("mset", 0, s("a"), ("L", 6)), ("print", 2),
+         ("mclear", 0), ("print", 2), ("mapkey", 3, 1, 0, s("zz")), ("print", 3)],
+        [("newvec", 0, L, [("L", 1), ("L", 2)]), ("newvec", 1, L, []), ("push", 1, ("C", 0, 0)), ("newvec", 2, L, [("C", 0, 1), ("C", 0, -1)][:1]), ("maplit", 3, mp(STR, INT), [(s("k"), ("C", 0, 0))]),
+         ("iwrite", 0, 0, ("L", 99)), ("iwrite", 0, 1, ("L", 98)), ("print", 1), ("print", 2), ("mget", 3, s("k")), ("clear", 0), ("print", 1), ("print", 2)],
+        [("newvec", 5, L, [("L", 7)]), ("newvec", 0, lst(L), [("V", 5), ("V", 5)]), ("newvec", 1, L, [("L", 1), ("L", 2)]), ("mapelem", 2, 1, 0, 0), ("push", 5, ("L", 8)), ("print", 2),
+         ("newvec", 6, L, []), ("iwrite", 0, 0, ("V", 6)), ("print", 2)],
         [("maplit", 0, mp(STR, opt(INT)), []), ("mset", 0, s("a"), ("L", None)), ("mget", 0, s("a")), ("haskey", 0, s("a")), ("haskey", 0, s("b")), ("replace", 0, s("a"), ("L", 5)),
          ("values", 0), ("mclear", 0), ("keys", 0)],
     ]
@@ -1129,7 +1213,11 @@ def defect_class(hist, exe):
 
 
 def has_elem_literal(hist):
-    return any(op[0] == "newvec" and any(e[0] == "E" for e in op[3]) for op in hist)
+    return any(op[0] == "newvec" and any(e[0] in ("E", "C") for e in op[3]) for op in hist)
+
+
+def has_callback_elem(hist):
+    return any(op[0] in ("mapelem", "mapkey") for op in hist)
 
 
 def evaluate(binary, base, exe, hists, flavours):
@@ -1221,7 +1309,7 @@ def run(ctx):
 
     hists = fixed_histories() + boundary_histories()
     if legacy_mode:
-        hists = [h for h in hists if not has_elem_literal(h)]
+        hists = [h for h in hists if not has_elem_literal(h) and not has_callback_elem(h)]
     n_sys = len(hists)
     n_random = (900 if ctx.quick() else 12000)
     tries = 0
@@ -1271,7 +1359,9 @@ def run(ctx):
         pre_fix = None
         if not legacy_mode and (not r["spec_ok"] or not r["fixed_ok"]):
             # behaviour of the tree before fixes/c13-*.diff: named by the repaired defect it exercises
-            if r.get("legacy_ok"):
+            if has_callback_elem(r["hist"]) and not r["fixed_ok"]:
+                pre_fix = "map-callback-returns-element-view"
+            if pre_fix is None and r.get("legacy_ok"):
                 pre_fix = defect_class(r["hist"], exe)
             if pre_fix is None and has_elem_literal(r["hist"]) and not r["fixed_ok"]:
                 pre_fix = "list-literal-stores-element-pointer"
